@@ -223,8 +223,14 @@ func (d *swDetector) Scan(ctx context.Context, root *scalibrfs.ScanRoot, px *pac
 	adv := func(ref string) *detector.Advisory {
 		return &detector.Advisory{ID: &detector.AdvisoryID{Publisher: "V", Reference: ref}, Title: "t-" + ref}
 	}
+	// two more with a reference used above but another publisher (a different advisory): the documented order looks at
+	// the reference and the extra text only
+	advW := func(ref string) *detector.Advisory {
+		return &detector.Advisory{ID: &detector.AdvisoryID{Publisher: "W", Reference: ref}, Title: "w-" + ref}
+	}
 	return []*detector.Finding{
-		{Adv: adv("B"), Extra: "2"}, {Adv: adv("A"), Extra: "9"}, {Adv: adv("A"), Extra: "1"}, {Adv: adv("C"), Extra: "0"}, {Adv: adv("B"), Extra: "1"},
+		{Adv: adv("B"), Extra: "2"}, {Adv: advW("A"), Extra: "5"}, {Adv: adv("A"), Extra: "9"}, {Adv: adv("A"), Extra: "1"}, {Adv: adv("C"), Extra: "0"},
+		{Adv: adv("B"), Extra: "1"}, {Adv: advW("B"), Extra: "0"},
 	}, nil
 }
 
